@@ -27,6 +27,10 @@ def new_message(st, payload, labelmsm=1, immutable=False, dynamic=True):
     o.symbolic_pre = False
     o.pre = {}
     o.fields.update({"_payload": payload, "_labelmsm": labelmsm, "_immutable": immutable})
+    if immutable is True:  # a constructed message: the other private fields exist, contents unknown
+        from pyvc.values import STruthy, fresh_name
+        o.fields.update({"_unknown": SBool(z3.Bool(fresh_name("unknown"))), "_satmap": STruthy(z3.Bool(fresh_name("satmap"))),
+                         "_cellmap": STruthy(z3.Bool(fresh_name("cellmap")))})
     return st.alloc(o)
 
 
@@ -233,7 +237,7 @@ class IsMsm(Contract):
         for hdr in list(all_headers())[inst[0]:inst[1]]:
             st = State()
             tail = generic_payload(st, "tail")
-            selfv = new_message(st, SBytes([hdr, tail]))
+            selfv = new_message(st, SBytes([hdr, tail]), immutable=True)
             ident = specid.ident(hdr)
             for s, out in eng.exec_function(fi, st, {"self": selfv}, contract=self):
                 if isinstance(out, RaiseExc):
@@ -242,7 +246,7 @@ class IsMsm(Contract):
                     continue
                 if not canary:
                     canary.append(s)
-                r = out.v
+                r = norm(out.v)
                 inblock = ident.isdigit() and 1070 <= int(ident) <= 1229
                 ok = isinstance(r, bool) and r == self.spec(ident) and (not r or inblock) and (r or ident not in msm)
                 eng.oblige(f"{self.qualname}.post[{ident}]", s, z3.BoolVal(ok), site=fi.lineno, observe={"header": hdr.hex()})
